@@ -348,6 +348,43 @@ pub fn run(ctx: &mut Ctx) {
         }
         sim_case(ctx, case, cfg, 3);
     }
+    // two versions of one crate in one registry, de-duplicated first (as every real user does)
+    let n_tv = ctx.tier.pick(600u64, 20_000u64);
+    for case in 0..n_tv {
+        if !ctx.mine(case) {
+            continue;
+        }
+        let mut rng = ctx.rng("two-versions", case);
+        let mut cfg = GenCfg::default();
+        cfg.max_defs = 4;
+        let p1 = ProgGen::new(&mut rng, cfg).gen_program();
+        let mut p2 = p1.clone();
+        let what = crate::families::edit_program(&mut rng, &mut p2);
+        let o1 = sim::simulate(&p1);
+        let o2 = sim::simulate(&p2);
+        let merged = crate::families::merge(&o1.registry, &o2.registry);
+        let off = o1.registry.types.len() as u32;
+        let mut noncf: BTreeSet<u32> = sim::cf_source(&p1, &o1).iter().filter(|(_, r)| r.is_some()).map(|(i, _)| *i).collect();
+        noncf.extend(sim::cf_source(&p2, &o2).iter().filter(|(_, r)| r.is_some()).map(|(i, _)| *i + off));
+        // everything touched by a coincidence (directly, through its family, or below) is unjudged
+        let tainted = reg::tainted_by_coincidence(&merged, &noncf);
+        let mut r = merged.clone();
+        if !matches!(guard(|| scale_typegen::utils::ensure_unique_type_paths(&mut r)), Ok(Ok(()))) {
+            continue;
+        }
+        let mut bad = noncf.clone();
+        bad.extend(tainted.iter().copied());
+        let unjudged = unjudged_ids(&merged, &bad);
+        let d = random_sdesc(&mut rng, &r, &SettingsOpts::default());
+        ctx.begin_case(&format!("two-versions case {case}"));
+        let regj = reg::to_json(&r);
+        let dj = serde_json::to_value(&d).unwrap();
+        let uj = unjudged.clone();
+        let replay = |id: Option<u32>| json!({"kind": "registry", "registry": regj, "sdesc": dj, "id": id, "noncf": uj, "label": what});
+        let st = judge(ctx, &r, &d, &unjudged, &replay, &mut rng);
+        ctx.case(hash_of(&(reg::fingerprint(&r), serde_json::to_string(&d).unwrap())), st.as_ref().map(|s| s.generated_related > 0).unwrap_or(false));
+        ctx.count("two_version_cases", 1);
+    }
     // real chain metadata and sub-registries
     let polka = reg::load_polkadot();
     let n_sub = ctx.tier.pick(40u64, 400u64);
